@@ -135,7 +135,7 @@ def judge_and_report(ctx, rows, name, chunk_events=4000, par=8):
             unexplained.append(i)
     for fid, idx in hits.items():
         stats['by_finding'][fid] = len(idx)
-        e = execs[idx[0]]
+        e = execs[min(idx, key=lambda i: (len(execs[i]), i))]       # the shortest one as the example
         rp = ctx.save_replay(f'{name}_{fid}.ndjson', ''.join(json.dumps(r, separators=(',', ':')) + '\n' for r in e))
         rs = e[0]
         pm = {}
@@ -245,7 +245,7 @@ def run(ctx):
     h = ctx.build_harness('h_gochan')
     T['built'] = round(time.time() - t0, 1)
     # (mode, executions, extra args)
-    modes = [('dir', 1000, ['--masks', 'ends']), ('rand', 200, []), ('gate', 5, [])] if quick else \
+    modes = [('dir', 1600, ['--masks', 'ends']), ('rand', 300, []), ('gate', 5, [])] if quick else \
             [('dir', 0, ['--masks', 'cap0all']), ('rand', 3000, []), ('gate', 25, [])]
     rows = []
     rcs = {}
